@@ -69,4 +69,126 @@ example :
     ((SyncContext.connect .tcp (some 7) true).call (.readHoldingRegisters 1 1) {} (some 50)).1
       = .transport .timedOut := by decide +kernel
 
+/-! ### Whole sessions -/
+
+/-- **sync_step_simulates**: one blocking operation is the asynchronous operation underneath it:
+    same request bytes and effects, same successor state and transport, and the result is the
+    asynchronous result seen through `withTimeout` (and the typed projection) -/
+theorem sync_step_simulates (s : SyncContext) (t : Transport) (op : SyncOp) (aop : Op)
+    (h : op.asyncOf s.timeout = some aop) :
+    stepSync s t op
+      = (op.present (stepOp s.asyncCtx t aop).1,
+         { asyncCtx := (stepOp s.asyncCtx t aop).2.1, timeout := s.timeout },
+         (stepOp s.asyncCtx t aop).2.2)
+    ∧ (stepSync s t op).1.effects = (stepOp s.asyncCtx t aop).1.effects := by
+  cases op with
+  | call req ext d =>
+    simp only [SyncOp.asyncOf, Option.some.injEq] at h; subst h
+    simp [stepSync, stepOp, SyncContext.call, SyncOp.present, SyncOpResult.effects, OpResult.effects]
+  | typed op ext d =>
+    simp only [SyncOp.asyncOf, Option.some.injEq] at h; subst h
+    simp [stepSync, stepOp, SyncContext.typed, SyncContext.call, SyncOp.present,
+      SyncOpResult.effects, OpResult.effects]
+  | setSlave id =>
+    simp only [SyncOp.asyncOf, Option.some.injEq] at h; subst h
+    simp [stepSync, stepOp, SyncContext.setSlave, SyncOp.present, SyncOpResult.effects,
+      OpResult.effects]
+  | setTimeout on => simp [SyncOp.asyncOf] at h
+
+/-- `set_timeout` / `reset_timeout` touch nothing but the wrapper's flag -/
+theorem sync_set_timeout_step (s : SyncContext) (t : Transport) (on : Bool) :
+    stepSync s t (.setTimeout on) = (.unit, { asyncCtx := s.asyncCtx, timeout := on }, t) := by
+  simp [stepSync, SyncContext.setTimeout]
+
+/-- **sync_session_simulates**: for every sequence of blocking operations, from every state and
+    over every transport behaviour, the blocking session *is* the asynchronous session underneath
+    it: the results are the asynchronous results seen through `withTimeout`, the asynchronous
+    context and the transport end in the same state, and the timeout flag is the last one set -/
+theorem sync_session_simulates (ops : List SyncOp) (s : SyncContext) (t : Transport) :
+    runSync s t ops
+      = (presentAll ops (runOps s.asyncCtx t (asyncSession s.timeout ops)).1,
+         { asyncCtx := (runOps s.asyncCtx t (asyncSession s.timeout ops)).2.1,
+           timeout := timeoutAfter s.timeout ops },
+         (runOps s.asyncCtx t (asyncSession s.timeout ops)).2.2) := by
+  induction ops generalizing s t with
+  | nil => simp [runSync, runOps, asyncSession, presentAll, timeoutAfter]
+  | cons op ops ih =>
+    cases hop : op.asyncOf s.timeout with
+    | none =>
+      cases op with
+      | setTimeout on =>
+        simp only [runSync, sync_set_timeout_step, asyncSession, presentAll, timeoutAfter]
+        rw [ih]
+      | call _ _ _ => simp [SyncOp.asyncOf] at hop
+      | typed _ _ _ => simp [SyncOp.asyncOf] at hop
+      | setSlave _ => simp [SyncOp.asyncOf] at hop
+    | some aop =>
+      have hs := (sync_step_simulates s t op aop hop).1
+      cases op with
+      | setTimeout on => simp [SyncOp.asyncOf] at hop
+      | call req ext d =>
+        simp only [runSync, hs, asyncSession, hop, Option.toList, List.cons_append, List.nil_append,
+          runOps, presentAll, timeoutAfter]
+        rw [ih]
+      | typed top ext d =>
+        simp only [runSync, hs, asyncSession, hop, Option.toList, List.cons_append, List.nil_append,
+          runOps, presentAll, timeoutAfter]
+        rw [ih]
+      | setSlave id =>
+        simp only [runSync, hs, asyncSession, hop, Option.toList, List.cons_append, List.nil_append,
+          runOps, presentAll, timeoutAfter]
+        rw [ih]
+
+/-- **sync_session_same_bytes**: over a whole session the blocking client causes exactly the
+    effects (bytes written, in order) of the asynchronous session underneath it -/
+theorem sync_session_same_effects (ops : List SyncOp) (s : SyncContext) (t : Transport) :
+    (runSync s t ops).1.flatMap SyncOpResult.effects
+      = (runOps s.asyncCtx t (asyncSession s.timeout ops)).1.flatMap OpResult.effects := by
+  induction ops generalizing s t with
+  | nil => simp [runSync, runOps, asyncSession]
+  | cons op ops ih =>
+    cases hop : op.asyncOf s.timeout with
+    | none =>
+      cases op with
+      | setTimeout on =>
+        simp only [runSync, sync_set_timeout_step, asyncSession, List.flatMap_cons,
+          SyncOpResult.effects, List.nil_append]
+        exact ih _ _
+      | call _ _ _ => simp [SyncOp.asyncOf] at hop
+      | typed _ _ _ => simp [SyncOp.asyncOf] at hop
+      | setSlave _ => simp [SyncOp.asyncOf] at hop
+    | some aop =>
+      have has : asyncSession s.timeout (op :: ops) = aop :: asyncSession s.timeout ops := by
+        cases op with
+        | setTimeout on => simp [SyncOp.asyncOf] at hop
+        | call req ext d => simp [asyncSession, hop]
+        | typed top ext d => simp [asyncSession, hop]
+        | setSlave id => simp [asyncSession, hop]
+      have hs := sync_step_simulates s t op aop hop
+      have hstep : stepSync s t op = ((stepSync s t op).1,
+          { asyncCtx := (stepOp s.asyncCtx t aop).2.1, timeout := s.timeout },
+          (stepOp s.asyncCtx t aop).2.2) := by rw [hs.1]
+      rw [has]
+      simp only [runSync, runOps, List.flatMap_cons]
+      rw [hstep]
+      simp only [hs.2]
+      rw [ih]
+
+/-- the number of asynchronous operations is the number of blocking operations other than
+    `set_timeout`: `presentAll` drops nothing -/
+theorem sync_session_results_complete (ops : List SyncOp) (s : SyncContext) (t : Transport) :
+    (runSync s t ops).1.length = ops.length := by
+  induction ops generalizing s t with
+  | nil => simp [runSync]
+  | cons op ops ih => simp [runSync, ih]
+
+-- non-vacuity: a session with a typed read, a slave change and a switched-off timeout
+example :
+    (runSync (SyncContext.connect .tcp (some 7) true) {}
+      [.typed (.readHoldingRegisters 1 1) { reads := [.data [0, 0, 0, 0, 0, 5, 7, 3, 2, 0x12, 0x34]] } (some 50),
+       .setSlave 9, .setTimeout false,
+       .call (.readHoldingRegisters 1 1) { reads := [.data [0, 1, 0, 0, 0, 5, 9, 3, 2, 0xAB, 0xCD]] } (some 50)]).1.map
+      (fun | .call r _ => some r | _ => none)
+      = [none, none, none, some (.ok (.readHoldingRegisters [0xABCD]))] := by decide +kernel
+
 end Modbus.Props.C17
